@@ -258,3 +258,61 @@ CHECKS["C17"] = {
         "epsilon-lexicase bands are computed exactly in TLC (median absolute deviation in units of 1/4)",
     ],
 }
+
+_SYN_MODELS = [
+    {"module": "MC_Syn", "cfg": "MC_Syn.cfg", "cfg_thorough": "MC_Syn_all.cfg", "workers": 12, "timeout": 1500},
+]
+_SYN_ASSUME = [
+    "the typing / refinement / depth oracle is the DECLARED class hierarchy read with typing.get_type_hints, "
+    "independently of extract_grammar",
+    "unrefined int / float / str values are abstracted to their exact Python type; floats are rank-encoded per batch",
+    "grammars: 10 regression grammars + 1 raw-source grammar with custom metahandlers + members of the generated family",
+]
+def _syn(prop, title, rule, extra_models=(), extra_assume=()):
+    return {
+        "title": title, "run": std_run,
+        "models": _SYN_MODELS + list(extra_models),
+        "drivers": [{"module": "harness.drv_syn", "trace": "Trace_Syn", "args": ["--prop", prop]}],
+        "shards": {"quick": 3, "thorough": 14},
+        "rule": rule,
+        "assumptions": _SYN_ASSUME + list(extra_assume),
+    }
+CHECKS["C01"] = _syn("C01", "every produced program is well-typed",
+    "one trace per grammar: programs created / mapped / mutated / crossed over with all five representations and "
+    "four deciders (events produced / failed); distinct = distinct traces by content")
+CHECKS["C02"] = _syn("C02", "refinements hold on every produced value",
+    "as C01, plus validate() called on values produced by generate() of every refinement (events validate)")
+CHECKS["C03"] = _syn("C03", "depth limits respected, every feasible limit usable",
+    "one trace per grammar: for every limit d from reported-minimum - 1 to + 2 (+3) and the grow / full / PI-grow "
+    "deciders (directly and through GE / SGE mapping) and dSGE: decider construction, creation, mutation and "
+    "crossover chains; raw draws are counted so that a rejection can be shown to be up-front",
+    extra_assume=["the feasibility threshold is the minimum depth the implementation reports (its exactness is C05)"])
+CHECKS["C10"] = _syn("C10", "the grammar is read-only during synthesis and search",
+    "one trace per grammar: workloads at depths below / at / above the minimum (including failing and backtracking "
+    "ones: dependent refinements over an empty context, exhausted stack genomes) followed by a full re-projection "
+    "of the Grammar object that TLC compares with the projection taken before")
+CHECKS["C10"]["drivers"].append({"module": "harness.drv_c04", "trace": "Trace_C04", "args": ["--prop", "C10"]})
+CHECKS["C11"] = _syn("C11", "per-node size and depth metadata matches the structure",
+    "as C01 with the five gengy_* labels of every node and list projected; the type index is projected as class -> "
+    "set of paths found by identity inside the program")
+CHECKS["C04"] = {
+    "title": "depth-bounded creation reaches exactly the bounded language",
+    "run": std_run,
+    "models": [
+        {"module": "MC_Syn", "cfg": "MC_Syn_all.cfg", "workers": 12, "timeout": 1500},
+        {"module": "MC_Syn", "cfg": "MC_Syn_ascoded.cfg", "workers": 12, "expect_violation": "GrowExact is violated"},
+    ],
+    "drivers": [{"module": "harness.drv_c04", "trace": "Trace_C04", "args": ["--prop", "C04"]}],
+    "shards": {"quick": 4, "thorough": 14},
+    "exhaustive": True,
+    "rule": "one trace per finite-choice grammar; each event is the COMPLETE set of programs the real code creates "
+            "for one decider and depth (all decision sequences enumerated by a scripted source), compared by TLC "
+            "with Lang / FullLang computed from the declared grammar; depth grows until the decision tree exceeds the cap",
+    "assumptions": [
+        "finite-choice grammars only (refined base values, bool, sized lists, unions, symbols); cap on decision-tree "
+        "leaves 2000 (quick) / 40000 (thorough)",
+        "'full creation' is the public FullInitializer; the full clause is judged only where every node-typed field is "
+        "a recursive abstract type and no list may be empty",
+        "default depth-counting mode only",
+    ],
+}
